@@ -274,6 +274,11 @@ class Documentable:
         old_name = self.name
         self.parent = self.parentMod = new_parent
         self.name = new_name
+        prev = self.system.allobjects.get(self.fullName())
+        if prev is not None and not isinstance(prev, Module):
+            # The new parent already defines an object of that name:
+            # it's superseded by the moved object, like any other duplicate.
+            self.system.handleDuplicate(self)
         self._handle_reparenting_post()
         del old_parent.contents[old_name]
         old_parent._localNameToFullName_map[old_name] = self.fullName()
